@@ -282,7 +282,7 @@ def run(tier, seed):
     n_scn = sum(g.scn for g in gens)
     cli_every = 11 if tier == "quick" else 37
     out = vlib.replay(ENGINE, scen, env={"TXN_CLI_EVERY": str(cli_every)}, timeout=20)
-    if out.total != n_scn and not out.errors:
+    if out.total != n_scn and not out.errors and not out.truncated:
         raise vlib.Inconclusive("replayed %d of %d scenarios" % (out.total, n_scn))
     absorb(v, out, scen)
     bad = set([i for i, _, _ in out.failures] + [i for i, _ in out.crashes] + list(out.timeouts))
